@@ -60,6 +60,16 @@ CLAIMS = {
  "C17": dict(technique="exhaustive enumeration of (order x N x grid x refinement) for the basis matrices against an independent Cox-de Boor (entry-wise, so all coefficient vectors are decided), of signal programs x methods, and of integrator-chain systems under SplineMethod (Taylor identities, row multisets, agreement with MultipleShooting, inf-constraint soundness by boundary search)",
              text="Order 0..4 x N<=8 x 3 grids x refinements 1..5: eval_on_knots / Greville / bspline_derivative equal scipy's clamped B-splines; B-spline parameters and variables in real OCPs (SplineMethod, MS, DC) are sampled as those splines, gist coefficients sit at Greville points; SplineMethod chain dynamics hold as exact Taylor identities, path rows sit at every refined point, MS's gaps vanish at the sampled spline trajectory, grid='inf' rows are sound.",
              design="DESIGN.md 4 (C17)"),
+
+ "C03": dict(technique="exhaustive enumeration of schemes x grids x N x M against textbook stability functions, exact quadrature-order conditions and closed-form flows, evaluated at dynamically feasible points of the real NLP",
+             text="Every scheme (shooting rk/expl_euler, collocation degree 1..5 x radau/legendre) x grid x N x M: interval maps equal R(z)^M of the textbook stability function (scalar and matrix), x'=t^m and integral(t^m) are exact below the classical order and show exactly the scheme's error constant at it, errors against 4 closed-form flows are non-increasing over M in {1,2,4,8} with the classical observed order; CasADi integrators and sys_simulator/discrete_system match the closed forms.",
+             design="DESIGN.md 3 (C03)", note="'vanishes as M grows' is decided for M<=8 and through exact order conditions only. Trusted: CasADi Function evaluation, numpy/scipy."),
+ "C08": dict(technique="deviation-bounded exhaustive enumeration of method configurations x models; all clauses of the statement evaluated at dynamically feasible points of the real NLP found by Newton on its enumerated rows",
+             text="Method/intg/degree/scheme/N/M/grid/model at <=2/<=3 deviations plus every scheme x M x grid x 4 models: thinning refine->integrator->control (r=1..7), equal subdivisions, one polynomial of the scheme's degree per step incl. its end state, slopes = rhs (start / collocation times, through helper states), exactness on polynomial solutions, sampler(gist,t) = that polynomial on a lattice of query times.",
+             design="DESIGN.md 4 (C08)"),
+ "C19": dict(technique="exhaustive enumeration of ordered argument lists x argument value alphabets x methods x solver budgets; to_function output compared with a fresh imperative pipeline on the real rockit",
+             text="Every ordered argument list of length <=2/<=3 over 6 argument kinds x 3^k values x 5 method configurations x {converge, zero iterations}: all outputs of F equal set_value/set_initial/solve/sample on a fresh OCP (the zero-iteration budget decides the initial-guess arguments).",
+             design="DESIGN.md 6 (C19)", note="ipopt deterministic for a fixed NLP and start point; strictly convex alphabet so converged outputs do not depend on the guess."),
 }
 NOTE = "Trusted: CasADi Function evaluation and Opti bookkeeping (x,p,f,g,lbg,ubg,initial), numpy/scipy, the reference model (written from the property statements, cross-checked against textbook closed forms). Numeric quantifiers are closed by a fixed generic-point alphabet (a stated bound), configuration quantifiers by the stated deviation/depth bound."
 
